@@ -154,3 +154,56 @@ Proof.
     + inversion LO as [| |pos' b rest Hle Hsl LO' E1 E2]; subst. inversion LO'; subst.
       symmetry. exact Hsl.
 Qed.
+
+(* [laid_out] is satisfiable for every RDATA whose components exist: writing every name
+   uncompressed (the RDATA itself, anywhere in a message) is a lay-out.  With
+   components_read_back this gives read_uncompressed again. *)
+Lemma laid_out_uncompressed_gen : forall types r comps pre post, wf_bytes r ->
+  comp_collect types r = Ok comps ->
+  laid_out (pre ++ r ++ post) (length pre + length r) (length pre) comps.
+Proof.
+  induction types as [|ty rest IH]; intros r comps pre post Hwf C.
+  - rewrite comp_collect_nil in C. inversion C; subst comps. destruct r as [|x r'].
+    + simpl length. rewrite Nat.add_0_r. constructor.
+    + apply lo_other; [lia| |constructor]. apply slice_app_mid; reflexivity.
+  - assert (N : forall cb, name_step cb rest r = Ok comps ->
+               laid_out (pre ++ r ++ post) (length pre + length r) (length pre) comps).
+    { intros cb H. unfold name_step in H. pose proof (uname_ok r Hwf) as U.
+      destruct (uname r) as [[nm len]|e0|]; cbn [bind] in H; try discriminate.
+      destruct U as (ls & Hv & -> & Hn & Hr & Hl & _).
+      rewrite slice_from_ok in H by exact Hl. cbn [bind] in H.
+      destruct (comp_collect rest (skipn len r)) as [tl|e0|] eqn:C'; cbn [bind] in H; try discriminate.
+      inversion H; subst comps.
+      apply (lo_name _ _ (length pre) cb (name_of ls) ls len); [reflexivity| |].
+      - replace (firstn (length pre + length r) (pre ++ r ++ post)) with (pre ++ r)
+          by (symmetry; rewrite app_assoc; apply firstn_app_exact; rewrite app_length; reflexivity).
+        rewrite Hr at 1. exists (length pre + wire_len ls). split; [apply decodes_of_wire; apply Hv|].
+        split; [lia|apply Hv].
+      - specialize (IH (skipn len r) tl (pre ++ firstn len r) post (wf_skipn len r Hwf) C').
+        rewrite <- app_assoc in IH. rewrite (app_assoc (firstn len r)), firstn_skipn in IH.
+        rewrite app_length, firstn_length_le, skipn_length in IH by exact Hl.
+        replace (length pre + len + (length r - len)) with (length pre + length r) in IH by lia.
+        exact IH. }
+    destruct ty.
+    + apply (N true). exact C.
+    + apply (N false). exact C.
+    + rewrite comp_collect_fixed in C.
+      destruct (length r <? n) eqn:B; [discriminate|]. apply Nat.ltb_ge in B.
+      destruct (comp_collect rest (skipn n r)) as [tl|e0|] eqn:C'; cbn [bind] in C; try discriminate.
+      inversion C; subst comps.
+      assert (Lf : length (firstn n r) = n) by (apply firstn_length_le; exact B).
+      apply lo_other; rewrite Lf.
+      * lia.
+      * rewrite <- (firstn_skipn n r) at 1. rewrite <- app_assoc.
+        apply slice_app_mid; [reflexivity|rewrite Lf; reflexivity].
+      * specialize (IH (skipn n r) tl (pre ++ firstn n r) post (wf_skipn n r Hwf) C').
+        rewrite <- app_assoc in IH. rewrite (app_assoc (firstn n r)), firstn_skipn in IH.
+        rewrite app_length, Lf, skipn_length in IH.
+        replace (length pre + n + (length r - n)) with (length pre + length r) in IH by lia.
+        exact IH.
+Qed.
+
+Theorem laid_out_uncompressed c t r comps pre post : wf_bytes r ->
+  components c t r = Ok comps ->
+  laid_out (pre ++ r ++ post) (length pre + length r) (length pre) comps.
+Proof. intros Hwf C. unfold components in C. eapply laid_out_uncompressed_gen; eauto. Qed.
